@@ -94,6 +94,7 @@ class Helper:
         self.is_gen = _has(fdef.body, (ast.Yield, ast.YieldFrom))
         body = fdef.body
         self.expr = body[0].value if len(body) == 1 and isinstance(body[0], ast.Return) and body[0].value is not None and not self.is_gen else None
+        self.expr_simple = self.expr is not None
         # straight-line helpers `t = e1; u = e2(t); return e(t, u)` are expressions too (each temporary assigned once, not a parameter)
         if self.expr is None and not self.is_gen and len(body) >= 2 and isinstance(body[-1], ast.Return) and body[-1].value is not None \
                 and all(isinstance(x, ast.Assign) and len(x.targets) == 1 and isinstance(x.targets[0], ast.Name) for x in body[:-1]):
@@ -163,17 +164,26 @@ def _conv(stmts, target):
             o, ro = _conv(list(s.orelse) + copy.deepcopy(rest), target)
             out.append(ast.copy_location(ast.If(test=s.test, body=b or [ast.copy_location(ast.Pass(), s)], orelse=o), s))
             return out, rb and ro
-        if isinstance(s, ast.Try) and not rest:
+        if isinstance(s, ast.Try) and not s.orelse and not s.finalbody:
+            # the statements after the try run when the body completed or a handler fell through: they are appended to every handler and
+            # (when the body does not return itself) put into the else-branch; a body that returns on some paths only is not supported
+            body_has = _has(list(s.body), ast.Return)
             b, rb = _conv(list(s.body), target)
+            if body_has and not rb:
+                raise NotInlinable('try body returns on some paths only')
             hs = []
-            allr = rb
+            allr = True
             for h in s.handlers:
-                hb, rh = _conv(list(h.body), target)
+                hb, rh = _conv(list(h.body) + copy.deepcopy(rest), target)
                 hs.append(ast.copy_location(ast.ExceptHandler(type=h.type, name=h.name, body=hb or [ast.copy_location(ast.Pass(), h)]), h))
                 allr = allr and rh
-            if s.orelse or s.finalbody:
-                raise NotInlinable('try/else with return')
-            out.append(ast.copy_location(ast.Try(body=b, handlers=hs, orelse=[], finalbody=[]), s))
+            orelse = []
+            if not body_has:
+                orelse, ro = _conv(copy.deepcopy(rest), target)
+                allr = allr and ro
+            else:
+                allr = allr and rb
+            out.append(ast.copy_location(ast.Try(body=b, handlers=hs, orelse=orelse, finalbody=[]), s))
             return out, allr
         if isinstance(s, (ast.For, ast.While)) and not s.orelse:
             # search loop with early return:  `for ..: if c: return e` + rest  ==>  `for ..: if c: T = e; break` + `else: rest`
@@ -424,7 +434,7 @@ class Inliner:
                 call, target = s.value, ('return',)
             if call is not None:
                 h, recv = self.helper_of(call)
-                if h is not None and not h.is_gen and h.expr is None:
+                if h is not None and not h.is_gen and not h.expr_simple:
                     new = self.body_for(h, call, recv, target)
                     self.done.append((None, h.qual, 'statement'))
                     return self.block(new, depth + 1)
@@ -435,7 +445,7 @@ class Inliner:
                 for r in roots:
                     for c in self._hoistable_calls(r):
                         h, recv = self.helper_of(c)
-                        if h is None or h.is_gen or h.expr is not None:
+                        if h is None or h.is_gen or h.expr_simple:
                             continue
                         self.tmp += 1
                         tname = f'_inl{self.tmp}_{h.f.name.lstrip("_")}'
@@ -499,8 +509,9 @@ class Inliner:
             return self
         for q, f in list(alpha.functions(self.tree)):
             n0 = len(self.done)
-            self.subst_expr_helpers(f)
+            # statement-level inlining first (keeps the helper's temporaries), then expression substitution for what is left
             f.body = self.block(f.body) or [ast.Pass()]
+            self.subst_expr_helpers(f)
             for i in range(n0, len(self.done)):
                 self.done[i] = (q, self.done[i][1], self.done[i][2])
         ast.fix_missing_locations(self.tree)
